@@ -88,11 +88,20 @@ KINDS = ["own", "shift", "default", "vacation", "leave1", "leaveN", "resvac", "r
 def cells(tier: str) -> dict:
     out = {}
     for kind in KINDS:
+        # narrow: the first task ends around the end of the first working day (7..9 h), the second is short - the pair straddles the
+        # first calendar feature (night, leave, vacation, DST change) with a small path tree
         def f(kind=kind):
             s = cal_spec(kind)
-            hi = (12 * H if s.length == "3w" else 8 * H) if s.resolution == 3600 else 3 * H
-            return Cell(s, {"e0": (60, hi), "e1": (60, hi)}, [on_calendar])
+            if s.resolution == 3600:
+                return Cell(s, {"e0": (7 * H, 9 * H), "e1": (60, 2 * H)}, [on_calendar])
+            return Cell(s, {"e0": (6 * H, 7 * H), "e1": (60, H)}, [on_calendar])
         out[f"cal[{kind}]"] = f
+        if tier != "quick":
+            def g(kind=kind):
+                s = cal_spec(kind)
+                hi = (12 * H if s.length == "3w" else 8 * H) if s.resolution == 3600 else 3 * H
+                return Cell(s, {"e0": (60, hi), "e1": (60, hi)}, [on_calendar])
+            out[f"cal[{kind},wide]"] = g
     return out
 
 
